@@ -31,57 +31,70 @@ section
 variable {K : Type} [Add K] [Sub K] [Mul K] [Div K] [Neg K] [LT K] [LE K]
   [DecidableLT K] [DecidableLE K] [OfNat K 0] [OfNat K 1] [NatCast K] [HasExp K]
 
+/-- what a translated method reports: `none`, or the model's class of the exception -/
+def evseOutcome : Except PyErr Unit → Option Evse.Err
+  | .ok _ => none
+  | .error e => some (evseErrOfPy e)
+
 /-- `BaseEVSE.plugin` is `Evse.plugin`; the only exception is `StationOccupiedError` (the f-string of its
-    message reads `self._ev.session_id`, which cannot fail in that branch) -/
+    message reads `self._ev.session_id`, which cannot fail in that branch), and it leaves the EVSE as it was -/
 theorem evse_plugin_tie (s : Evse K) (e : Ev K) :
     evse_plugin s e =
       match Evse.plugin s e with
-      | .ok s' => .ok s'
-      | .error _ => .error .StationOccupiedError := by
+      | .ok s' => (s', .ok ())
+      | .error _ => (s, .error .StationOccupiedError) := by
   unfold evse_plugin Evse.plugin
   cases h : s.ev <;> simp [h]
-
-theorem evse_plugin_err (s : Evse K) (e : Ev K) : (evse_plugin s e).mapError evseErrOfPy = Evse.plugin s e := by
-  unfold evse_plugin Evse.plugin
-  cases h : s.ev <;> simp [h, Except.mapError, evseErrOfPy]
 
 /-- `BaseEVSE.unplug` is `Evse.unplug` -/
 theorem evse_unplug_tie (s : Evse K) : evse_unplug s = Evse.unplug s := rfl
 
-/-- `BaseEVSE.set_pilot` is `Evse.setPilot` (with the model's error classes) -/
-theorem evse_set_pilot_tie (atol fixedAtol ν : K) (s : Evse K) (p V T : K) :
-    (evse_set_pilot atol fixedAtol ν s p V T).mapError evseErrOfPy = Evse.setPilot atol fixedAtol s p V T ν := by
+/-- `BaseEVSE.set_pilot`, accepted: exactly when `Evse.setPilot` accepts, with the same EVSE afterwards -/
+theorem evse_set_pilot_ok (atol fixedAtol ν : K) (s s' : Evse K) (p V T : K) :
+    evse_set_pilot atol fixedAtol ν s p V T = (s', .ok ()) ↔ Evse.setPilot atol fixedAtol s p V T ν = .ok s' := by
   unfold evse_set_pilot Evse.setPilot
   by_cases hv : validRate atol fixedAtol s.kind p = true
   · simp only [hv, if_true]
     cases he : s.ev with
-    | none => simp [he, Except.mapError]
+    | none => simp
     | some e =>
-      simp only [he, Option.isSome_some, if_true]
+      simp only [Option.isSome_some, if_true]
       cases hc : Ev.charge e p V T ν with
-      | error x => cases x <;> simp [Except.mapError, evseErrOfPy, battErrToPy]
-      | ok e' => simp [Except.mapError]
-  · simp [hv, Except.mapError, evseErrOfPy]
+      | error x => simp
+      | ok e' => simp
+  · simp [hv]
 
-/-- what `set_pilot` can raise: `InvalidRateError`, or whatever `Battery.charge` raised — never the
-    `AttributeError` of the translated `self._ev.charge` on `None` -/
-theorem evse_set_pilot_errors (atol fixedAtol ν : K) (s : Evse K) (p V T : K) (err : PyErr)
-    (h : evse_set_pilot atol fixedAtol ν s p V T = .error err) :
-    err = .InvalidRateError ∨ err = .ValueError ∨ err = .ZeroDivisionError := by
-  unfold evse_set_pilot at h
+/-- `BaseEVSE.set_pilot`, rejected: the model reports the class of what the code raises — `InvalidRateError`
+    with the EVSE untouched, or what `Battery.charge` raised with the new pilot ALREADY stored (the assignment
+    precedes the call) — and never the `AttributeError` of the translated `self._ev.charge` on `None` -/
+theorem evse_set_pilot_err (atol fixedAtol ν : K) (s : Evse K) (p V T : K) (err : Evse.Err)
+    (h : Evse.setPilot atol fixedAtol s p V T ν = .error err) :
+    ∃ pe, (evse_set_pilot atol fixedAtol ν s p V T).2 = .error pe ∧ evseErrOfPy pe = err ∧
+      ((pe = .InvalidRateError ∧ (evse_set_pilot atol fixedAtol ν s p V T).1 = s) ∨
+       ((pe = .ValueError ∨ pe = .ZeroDivisionError) ∧
+         (evse_set_pilot atol fixedAtol ν s p V T).1 = { s with pilot := p })) := by
+  unfold Evse.setPilot at h
+  unfold evse_set_pilot
   by_cases hv : validRate atol fixedAtol s.kind p = true
-  · simp only [hv, if_true] at h
+  · simp only [hv, if_true] at h ⊢
     cases he : s.ev with
     | none => simp [he] at h
     | some e =>
-      simp only [he, Option.isSome_some, if_true] at h
+      simp only [he, Option.isSome_some, if_true] at h ⊢
       cases hc : Ev.charge e p V T ν with
       | error x =>
         rw [hc] at h
-        cases x <;> simp [battErrToPy] at h <;> simp [← h]
+        simp only at h
+        cases h
+        cases x
+        · exact ⟨.ValueError, rfl, rfl, Or.inr ⟨Or.inl rfl, rfl⟩⟩
+        · exact ⟨.ZeroDivisionError, rfl, rfl, Or.inr ⟨Or.inr rfl, rfl⟩⟩
       | ok e' => rw [hc] at h; simp at h
-  · simp [hv] at h
-    simp [← h]
+  · have hv' : validRate atol fixedAtol s.kind p = false := by simpa using hv
+    rw [hv'] at h ⊢
+    simp only [Bool.false_eq_true, if_false] at h
+    cases h
+    exact ⟨.InvalidRateError, rfl, rfl, Or.inl ⟨rfl, rfl⟩⟩
 
 end
 
